@@ -30,7 +30,9 @@ POOL_SHAPE = ["_", "_x", "__", "X", "Name", "a1", "a", "b", "k", "z", "Q", "x_1_
               # words that are literals or operators in other languages, not in this one
               "true", "false", "null", "none", "nil", "nan", "inf", "yes", "no", "is_", "xor", "like", "between",
               # names of the generated code's own parameters and locals, as far as a reader of the README can guess them
-              "salt_", "key", "w", "args", "population", "weights", "cum_weights", "input_id", "k", "u"]
+              "salt_", "key", "w", "args", "population", "weights", "cum_weights", "input_id", "k", "u",
+              # names of attributes of the evaluator object and of every Python object
+              "recompile", "run_experiment", "_checksum", "__call__", "__init__", "__class__", "__dict__", "__name__", "__doc__"]
 # identifiers that are Python hard keywords (not DSL keywords) or names the generated code uses
 POOL_HOSTILE = [
     "class", "for", "lambda", "None", "True", "False", "is", "as", "assert", "async", "await", "break", "continue",
